@@ -2,6 +2,11 @@ NOTES = ("All checks: ./check <ID> --tier quick|thorough, VERIF_SEED respected, 
          "fix: commits in /repo are listed in known_findings.json as fixed entries.")
 NOT_APPLICABLE = {}
 CHECKS = {
+ "C17": {
+  "technique": "Hypothesis property-based testing of mutation schedules against an aliasing-free model (the harness replays the schedule on its own objects and deep-copies at comparison time)",
+  "text": "Generated schedules interleave comparisons on 1-3 sites with mutations (append, clear, item/attribute assignment, nested) of 1-3 shared mutable variables; the values in the rewritten file after create, and after a second fix+trim session on a changed schedule, must equal the aggregation of the harness-recorded copies; values whose deep copy differs (identity eq, lossy __deepcopy__, also nested) must raise UsageError and leave the site unwritten. Exploration.",
+  "note": "== sites only see equal values by construction; the category model of C05 aggregates the recorded copies",
+ },
  "C06": {
   "technique": "Hypothesis differential testing: the same generated module executed with inline-snapshot active (no flags) and with snapshot/Is replaced by the identity; plus real pytest sessions for the disabled modes",
   "text": "Sequences of 1-8 comparisons (all supported forms, both operand orders, sub-snapshot access, re-evaluation through a function, Is()/inner snapshot wrappers) are logged in both executions and must agree outcome by outcome; a comparison with a different operation than the first must log TypeError. Real sessions check `snapshot(v) is v` under disable / CI / xdist / xfail and equality of pass/fail vectors with and without --inline-snapshot=disable. Exploration.",
